@@ -185,20 +185,32 @@ def make_tachyon(nm, pid='C04'):
         flagged = []
         it = Interp(ctx.w, mode='sym')
         M = Mat(2, 2, [[a, b], [b, c]], 'matrix', False)
-        it.stubs.update({'fs_diagonalize_hermitian': linalg_hermitian_stub,
+        handed = []
+        def solver(i, ar, t):
+            handed.append(ar[0].copy())
+            return linalg_hermitian_stub(i, ar, t)
+        it.stubs.update({'fs_diagonalize_hermitian': solver,
                          CLS + '::get_mass_matrix_' + nm: lambda i, ar, t: M,
                          '::flag_tachyon': lambda i, ar, t: flagged.append(ar[0])})
         m = it.new_object('MSSMNoFV_onshell')
         def run():
             del flagged[:]
+            del handed[:]
             it.call('calculate_M' + nm, [], this=m)
-            return (m.f[ARR[nm]].copy(), list(flagged))
+            return (m.f[ARR[nm]].copy(), list(flagged), list(handed))
         paths = it.run_paths(run)
         ctx.merge_rules(it)
         ctx.assume_note('A-LINALG: fs_diagonalize_hermitian(m,w,z): z orthogonal, z m z^T = diag(w), |w0|<=|w1|')
         if nm in FLAGGING and len(paths) < 2:
             ctx.record('paths', ERROR, 'B', 0, 'expected a flagging and a non-flagging path, got %d' % len(paths))
-        for k, (sym, (Ms, fl), exc) in enumerate(paths):
+        for k, (sym, (Ms, fl, hd), exc) in enumerate(paths):
+            # the spectrum is the spectrum OF THE MASS MATRIX: what is handed to the eigen-solver is get_mass_matrix_X(), entry by entry, on every path
+            same = len(hd) == 1 and hd[0].r == 2 and hd[0].c == 2
+            if same:
+                ctx.prove('path%d.solver_receives_mass_matrix' % k, sym.pc, z3.And(*[z3real(hd[0].get(i, j)) == z3real(M.get(i, j)) for i in range(2) for j in range(2)]), check_vacuity=False,
+                          pins=[{'m00': 250000, 'm01': Fr(1, 100), 'm11': 160000}, {'m00': 250000, 'm01': 3000, 'm11': 160000}, {'m00': 4, 'm01': 1, 'm11': 9}])
+            else:
+                ctx.record('path%d.solver_receives_mass_matrix' % k, FAILED, 'B', 0, 'the eigen-solver is called %d times' % len(hd))
             W = [z3.Real('eig%d_w%d' % (sym.linalg_k, i)) for i in range(2)]
             anyneg = z3.Or(W[0] < 0, W[1] < 0)
             if nm in FLAGGING:
@@ -405,3 +417,38 @@ def make_flag_contract(prop, cls='MSSMNoFV_onshell_problems', file=PB, sectors=N
         ctx.record('clear', PROVED if ok else FAILED, 'B', 0, 'clear() leaves %s' % (p.f['tachyons'],))
 
 make_flag_contract('C04')
+
+# the gaugino sectors: what reaches the decomposition routine is the mass matrix itself (same statement as `solver_receives_mass_matrix` of the 2x2 scalar sectors)
+def make_solver_input(nm, solver, n):
+    @obligation('C04.spectrum.solver_input.%s' % nm, fns=[(ME, CLS + '::calculate_M' + nm)])
+    def ob(ctx, nm=nm, solver=solver, n=n):
+        """ensures: calculate_M<X> hands get_mass_matrix_<X>() -- every entry, on every path -- to the decomposition routine, exactly once"""
+        handed = []
+        it = Interp(ctx.w, mode='sym')
+        M = Mat(n, n, [[z3.Real('m%d%d' % (i, j)) for j in range(n)] for i in range(n)], 'matrix', False)
+        it.stubs.update({solver: lambda i, ar, t: handed.append(ar[0].copy()), CLS + '::get_mass_matrix_' + nm: lambda i, ar, t: M})
+        m = it.new_object('MSSMNoFV_onshell')
+        def run():
+            del handed[:]
+            it.call('calculate_M' + nm, [], this=m)
+            return list(handed)
+        paths = it.run_paths(run)
+        ctx.merge_rules(it)
+        for k, (sym, hd, exc) in enumerate(paths):
+            if len(hd) != 1 or hd[0].r != n:
+                ctx.record('path%d' % k, FAILED, 'B', 0, 'the decomposition routine is called %d times' % len(hd))
+                continue
+            ctx.prove('path%d' % k, sym.pc, z3.And(*[z3real(hd[0].get(i, j)) == z3real(M.get(i, j)) for i in range(n) for j in range(n)]), check_vacuity=False)
+        ctx.record('paths', PROVED if paths else ERROR, 'B', 0, '%d path(s)' % len(paths))
+    return ob
+
+make_solver_input('Cha', 'fs_svd', 2)
+make_solver_input('Chi', 'fs_diagonalize_symmetric', 4)
+
+# C07: the 1/k^2 scaling presupposes that the spectrum entering a_mu is the spectrum of the (homogeneous) mass matrices: a dimensionally consistent but scale-dependent
+# shortcut between the mass matrix and the solver breaks it without violating the units contract.  The sector contracts are callee contracts of C07.
+for _nm in ('Sm', 'Stau', 'Sb', 'St'):
+    make_tachyon(_nm, 'C07')
+from contracts.shared import reregister as _rr_c07
+_rr_c07('C07', 'C04', 'C04.spectrum.solver_input.Cha', 'C07.callee.solver_input.Cha')
+_rr_c07('C07', 'C04', 'C04.spectrum.solver_input.Chi', 'C07.callee.solver_input.Chi')
